@@ -230,6 +230,20 @@ func (in *Interp) fresh(name string, s Sort) *Term {
 	if k > 0 {
 		full = fmt.Sprintf("%s#%d", name, k)
 	}
+	if conc := in.run.cfg.Concrete; conc != nil {
+		v := conc[full]
+		if v == nil {
+			v = new(big.Int)
+		}
+		switch s.K {
+		case SBool:
+			return BoolConst(v.Sign() != 0)
+		case SInt:
+			return IntConstBig(v)
+		default:
+			return BVConstBig(s.W, v)
+		}
+	}
 	t := Var(fmt.Sprintf("%s:%s%d", full, [...]string{"b", "bv", "i"}[s.K], s.W), s)
 	in.nondets = append(in.nondets, t)
 	return t
